@@ -251,6 +251,48 @@ func vMswRun(t *testing.T) {
 				}
 				out.stat("sub3s")
 			}
+		} else if !hold && i%4 == 3 {
+			// GRANTED DURING THE PARK: the holder releases at once, the queued request is granted while its millisecond-table entry
+			// is still parked; when the park ends (and later, when its former deadline passes on the second wheel) nothing more
+			// may be sent under its RequestId and the hold must stay (C03: one terminal reply; C05: no TIMEOUT after a grant)
+			_ = v.conns[0].ProcessLockCommand(vMsCmd(protocol.COMMAND_UNLOCK, req+2, req, key, 0, 0, 0, 0))
+			time.Sleep(time.Duration(park+70) * time.Millisecond)
+			for w := 0; w < 300 && vMsPending(v.db); w++ {
+				time.Sleep(10 * time.Millisecond)
+			}
+			for k := 0; k < T/1000+3 && k < 8; k++ {
+				v.tick()
+			}
+			got := rec.get(probe)
+			granted, timedOut := false, false
+			for _, g := range got {
+				if g.result == 0 {
+					granted = true
+				}
+				if g.result == protocol_RESULT_TIMEOUT {
+					timedOut = true
+				}
+			}
+			stillHeld := false
+			for _, h := range v.keySnap(key).holds {
+				if h.req == probe {
+					stillHeld = true
+				}
+			}
+			obs = "granted"
+			if !granted {
+				obs = "not-granted"
+			} else if timedOut || len(got) != 1 || !stillHeld {
+				obs = "granted-then-timeout"
+				out.monitor("C05:timeout-after-grant:millisecond", fmt.Sprintf("request with a %d ms wait was granted while parked in the millisecond table and later received %v (hold still present: %v)", T, got, stillHeld), replay)
+				out.monitor("C03:second-terminal-reply:millisecond", fmt.Sprintf("request with a %d ms wait received %d replies: %v", T, len(got), got), replay)
+			}
+			out.stat("granted-during-park")
+			out.emit(fmt.Sprintf("# msw-grant %d %d", start, T), fmt.Sprintf("# msw-grant %d %d", start, T))
+			_ = obs
+			_ = v.conns[1].ProcessLockCommand(vMsCmd(protocol.COMMAND_UNLOCK, req+2, req+1, key, 0, 0, 0, 0))
+			out.stat(what)
+			continue
 		} else {
 			time.Sleep(time.Duration(park+70) * time.Millisecond)
 			// on a loaded machine the park goroutine may wake late: wait until the millisecond tables are empty (≤ 3 s more)
